@@ -228,13 +228,27 @@ contract(ML + "__init__", props=P, types={"id": "Id", "borrowed_symbol": "Str", 
 # margin rule (C06, C10)
 # ---------------------------------------------------------------------------------------------------------------------
 MT = {"updated_balances": "Dict[Str,Real]", "updated_holds": "Dict[Str,Real]", "updated_borrowed": "Dict[Str,Real]"}
+# C10.  The three sums of _calculate_margin_level are spec functions of the maps (finite sums over maps are outside the
+# encoding: the function itself is under a TRUSTED contract that states its definition in terms of them):
+#   um   = sum over borrowed symbols of requirement(s) * borrowed[s], valued in the quote symbol at the last prices
+#   eqty = sum over symbols of max(balance[s] - borrowed[s], 0), valued likewise      oint = outstanding interest, valued likewise
+specfun("um", ["ml", "bor"], "ufun('used_margin', 'Real', ml, bor, ml._exchange_ctx.prices._last_bars)")
+specfun("eqty", ["ml", "bal", "bor"], "ufun('equity', 'Real', ml, bal, bor, ml._exchange_ctx.prices._last_bars)")
+specfun("oint", ["ml"], "ufun('outstanding_interest', 'Real', ml, ml._exchange_ctx.prices._last_bars)")
 contract(MLS + "_calculate_margin_level", props=["C10", "C06"], types=MT, returns="Real", modifies=[], trusted=True,
          requires=[("ctx", "not_none(self._exchange_ctx) and not_none(self._loan_mgr)")],
-         ensures=[], raises={"Error": []},
-         notes="TRUSTED for now (finite sums over maps): margin level = equity / (used margin + interest) * 100")
+         ensures=[("nonneg", "um(self, updated_borrowed) >= 0 and oint(self) >= 0 and eqty(self, updated_balances, updated_borrowed) >= 0"),
+                  ("definition", "result == (0 if um(self, updated_borrowed) == 0 else "
+                                 "eqty(self, updated_balances, updated_borrowed) / (um(self, updated_borrowed) + oint(self)) * 100)")],
+         raises={"Error": []},
+         notes="TRUSTED (finite sums over maps): margin level = equity / (used margin + interest) * 100, 0 when no margin is used")
 contract(MLS + "_check_margin_level", props=["C10", "C06", "C07"], types=MT, modifies=[],
          requires=[("ctx", "not_none(self._exchange_ctx) and not_none(self._loan_mgr)")],
-         ensures=[],
+         # C10 (statement-derived): an update that touches funds is only let through if the equity it leaves is at least
+         # the margin requirement times the value of everything borrowed
+         ensures=[("margin_requirement_met", "implies(not (same_content(updated_balances, self._exchange_ctx.account_balances.balances) "
+                                             "and same_content(updated_borrowed, self._exchange_ctx.account_balances.borrowed)), "
+                                             "um(self, updated_borrowed) == 0 or eqty(self, updated_balances, updated_borrowed) >= um(self, updated_borrowed))")],
          # never rejects an update that changes neither balances nor borrowed amounts (C06: hold releases always pass)
          raises={"Error": [("touches_funds", "not (same_content(updated_balances, self._exchange_ctx.account_balances.balances) "
                                              "and same_content(updated_borrowed, self._exchange_ctx.account_balances.borrowed))")]})
